@@ -52,6 +52,8 @@ var contracts = map[string]*Contract{
 	"(" + pDsig + ".X509KeyStore).GetKeyPair":                      {Note: "user-supplied key store; may fail", MayNil: []int{0, 1}},
 	// --- etree / etreeutils
 	pEU + ".NSFindIterate":                     {Iterate: true, IterRoot: 0, IterHandler: 3, Note: "calls h for every element (root included, all depths) with that namespace+tag; returns h's first error"},
+	pEU + ".NSFindIterateCtx":                  {Iterate: true, IterRoot: 1, IterHandler: 4, Note: "NSFindIterate with an explicit namespace context"},
+	pEU + ".NewDefaultNSContext":               {Fresh: true, Note: "the context NSFindIterate starts from"},
 	pEU + ".NSDetatch":                         {Fresh: true, Note: "deep copy with namespace declarations, input unchanged", OkNonNil: []int{0}},
 	"(*" + pEtree + ".Element).Parent":         {TreeObserver: true, MayNil: []int{0}, Note: "may return nil; stable until the tree is mutated"},
 	"(*" + pEtree + ".Document).Root":          {TreeObserver: true, MayNil: []int{0}, Note: "may return nil; stable until the tree is mutated"},
@@ -140,6 +142,7 @@ var contracts = map[string]*Contract{
 	"(hash.Hash).Size":                      {Det: true},
 	"(hash.Hash).Write":                     {Writes: []int{0}},
 	"(hash.Hash).Sum":                       {Fresh: true},
+	"(crypto.Hash).New":                     {NonNil: []int{0}, Fresh: true, Note: "the registered constructor: crypto.SHA1.New() is sha1.New()"},
 	"crypto/sha1.New":                       {Fresh: true, NonNil: []int{0}},
 	"crypto/sha256.New":                     {Fresh: true, NonNil: []int{0}},
 	"crypto/sha512.New":                     {Fresh: true, NonNil: []int{0}},
@@ -148,19 +151,20 @@ var contracts = map[string]*Contract{
 	"crypto/aes.NewCipher":                  {Fresh: true, OkNonNil: []int{0}},
 	"crypto/rand.Read":                      {Writes: []int{0}, LenRes0: true, Note: "fills the whole slice or returns an error: n == len(b) iff err == nil"},
 	// --- std: url / http / template
-	"net/url.Parse":                     {Fresh: true, OkNonNil: []int{0}},
-	"(*net/url.URL).Query":              {Fresh: true, NonNil: []int{0}},
-	"(*net/url.URL).String":             {},
-	"(net/url.Values).Add":              {Writes: []int{0}},
-	"(net/url.Values).Get":              {},
-	"(net/url.Values).Encode":           {},
-	"net/url.QueryEscape":               {Det: true},
-	"net/http.Redirect":                 {Writes: []int{0}},
-	"encoding/hex.Encode":               {Writes: []int{0}},
-	"html/template.New":                 {Fresh: true, NonNil: []int{0}},
-	"(*html/template.Template).Parse":   {Writes: []int{0}, OkNonNil: []int{0}},
-	"html/template.Must":                {NonNil: []int{0}, Pre: "err == nil"},
-	"(*html/template.Template).Execute": {Writes: []int{1}, ConcSafeRecv: true, Note: "html/template: a template may be executed safely in parallel"},
+	"net/url.Parse":                             {Fresh: true, OkNonNil: []int{0}},
+	"(*net/url.URL).Query":                      {Fresh: true, NonNil: []int{0}},
+	"(*net/url.URL).String":                     {},
+	"(net/url.Values).Add":                      {Writes: []int{0}},
+	"(net/url.Values).Get":                      {},
+	"(net/url.Values).Encode":                   {},
+	"net/url.QueryEscape":                       {Det: true},
+	"net/http.Redirect":                         {Writes: []int{0}},
+	"encoding/hex.Encode":                       {Writes: []int{0}},
+	"html/template.New":                         {Fresh: true, NonNil: []int{0}},
+	"(*html/template.Template).Parse":           {Writes: []int{0}, OkNonNil: []int{0}},
+	"html/template.Must":                        {NonNil: []int{0}, Pre: "err == nil"},
+	"(*html/template.Template).ExecuteTemplate": {Writes: []int{1}, ConcSafeRecv: true, Note: "Execute of the associated template of that name"},
+	"(*html/template.Template).Execute":         {Writes: []int{1}, ConcSafeRecv: true, Note: "html/template: a template may be executed safely in parallel"},
 	// --- std: sync
 	"(*sync.RWMutex).RLock":   {},
 	"(*sync.RWMutex).RUnlock": {},
